@@ -157,7 +157,11 @@ mod verif_edge {
         assert!(h1.n_u32 == 1 && h1.n_other == 0 && h2.n_u32 == 1 && h2.n_other == 0);
         assert!((h1 == h2) == same_view);
         kani::cover!(same_view);
-        kani::cover!(!same_view && oxidd_core::Edge::node_id(&*e1) == oxidd_core::Edge::node_id(&*e2));
+        if tag_bits > 0 {
+            // same node, different tag: distinct handles
+            kani::cover!(!same_view && oxidd_core::Edge::node_id(&*e1) == oxidd_core::Edge::node_id(&*e2));
+        }
+        kani::cover!(!same_view && e1.tag() == e2.tag());
     }
     fn check_order_transitive<ET: Tag + kani::Arbitrary>() {
         let (r1, r2, r3): (u32, u32, u32) = (kani::any(), kani::any(), kani::any());
